@@ -155,6 +155,17 @@ def run_case(case):
                 r.violation('C11:nonpositive-tau-not-frank', f'select_copula({tag}): tau={tref!r} <= 0 but family={fam}',
                             case=case, X=X)
             _calibrated(r, res, tref, case, tag)
+            # the same table stored with dtype=object (what DataFrame.to_numpy() yields for object columns): same answer
+            if idx % 7 == 0:
+                r.tr()
+                try:
+                    reso = select_copula(X.astype(object))
+                    if type(reso) is not type(res) or not (reso.theta == res.theta or (math.isnan(reso.theta) and math.isnan(res.theta))):
+                        r.violation('C11:dtype-dependence', f'select_copula({tag}) stored as dtype=object gives '
+                                    f'{type(reso).__name__}({reso.theta!r}) vs {type(res).__name__}({res.theta!r})', case=case, X=X)
+                except Exception as e:
+                    r.violation(f'C11:raises:{type(e).__name__}:object-dtype', f'select_copula({tag}) stored as dtype=object raised '
+                                f'{type(e).__name__}: {e}', case=case, X=X)
             # determinism on an equal-but-distinct array, and the deprecated alias
             r.tr(2)
             res2 = select_copula(np.array(X.tolist()))
@@ -232,6 +243,20 @@ def run_case(case):
         r.state(('cell', fam, tau, k, seed))
         res = select_copula(X)
         got = type(res).__name__.lower()
+        if k % 4 == 0:
+            # the same table stored as float32: the same family, and the parameter up to the precision of the storage
+            r.tr()
+            X32 = X.astype(np.float32)
+            r64 = select_copula(X32.astype(np.float64))
+            try:
+                r32 = select_copula(X32)
+                if type(r32) is not type(r64) or not abs(float(r32.theta) - float(r64.theta)) <= 1e-4 * max(1.0, abs(float(r64.theta))):
+                    r.violation('C11:dtype-dependence:float32', f'select_copula on the {fam} tau={tau} data set #{k} stored as float32 '
+                                f'gives {type(r32).__name__}({float(r32.theta)!r}), the same values as float64 give '
+                                f'{type(r64).__name__}({float(r64.theta)!r})', case=case)
+            except Exception as e:
+                r.violation(f'C11:raises:{type(e).__name__}:float32', f'select_copula on a float32 table raised {type(e).__name__}: {e}',
+                            case=case)
         ok = got == fam
         hits += ok
         r.add(f'cell:{fam}:{tau}:n')
